@@ -59,6 +59,20 @@ func modelCheckF(r *corr.Run, prop, stream string, ops func() []string, op, impl
 }
 
 // violations counts the failing inputs found for the focus property (all, when no focus is set).
+// tlViolate records a violation found on the pure Tree. While the check of the OTHER property of this area runs it
+// is recorded at most otherCap times (shared with the history oracles): otherwise the pure-Tree oracles, which all
+// speak about C06, fill the shared issue cap of 20 and the C09 oracles' findings are dropped.
+func tlViolate(r *corr.Run, prop, stream, desc string, ops []string) {
+	if focusProp != "" && prop != focusProp {
+		r.Count("violation.other-property." + stream)
+		if otherCount >= otherCap {
+			return
+		}
+		otherCount++
+	}
+	r.Violate(prop, "", stream, desc, ops)
+}
+
 func violations(r *corr.Run) int {
 	n := 0
 	for _, is := range r.Res.Issues {
@@ -230,7 +244,14 @@ func (w *world) corrRebuild(rep *replica) {
 
 // corrLoader: the real loader's answer against the model's `respond` on the responder's stored sequence.
 func (w *world) corrLoader(resp *replica, theirHeads, theirPath []string, limit int, batches []loaderBatch, what string) {
-	ourPath, _ := resp.tree.SnapshotPath()
+	w.corrLoaderAt(w.respNow(resp), theirHeads, theirPath, limit, batches, what)
+}
+
+func (w *world) corrLoaderAt(at respState, theirHeads, theirPath []string, limit int, batches []loaderBatch, what string) {
+	ourPath := at.path
+	if len(ourPath) == 0 {
+		return
+	}
 	cs := ourPath[len(ourPath)-1]
 	if len(theirPath) != 0 {
 		in := newInterner(append(append([]string{}, ourPath...), theirPath...))
@@ -248,7 +269,7 @@ func (w *world) corrLoader(resp *replica, theirHeads, theirPath []string, limit 
 			return
 		}
 	}
-	st := w.stored(resp)
+	st := at.full
 	start := -1
 	for i, c := range st {
 		if c.Id == cs {
@@ -303,7 +324,7 @@ func mkChange(n *tnode) *objecttree.Change {
 
 // genDag: a random DAG over ids drawn from a tiny alphabet (many prefix-related ids); not necessarily honest.
 // Fans (several concurrent children of one change) and chains are both frequent.
-func genDag(r *corr.Run) ([]*tnode, map[string]*chInfo, *interner) {
+func genDag(r *corr.Run, honest bool) ([]*tnode, map[string]*chInfo, *interner) {
 	n := 2 + r.Intn(r.Pick(7, 10))
 	alph := []string{"ab", "abc", "01"}[r.Intn(3)]
 	used := map[string]bool{}
@@ -328,7 +349,7 @@ func genDag(r *corr.Run) ([]*tnode, map[string]*chInfo, *interner) {
 		if r.Chance(35) {
 			np = 2 + r.Intn(2)
 		}
-		if r.Chance(6) {
+		if !honest && r.Chance(6) {
 			np = 0 // hostile: a non-root change without previous ids (must never be attached, nor its descendants)
 			r.Count("treelevel.parentless")
 		}
@@ -364,6 +385,36 @@ func genDag(r *corr.Run) ([]*tnode, map[string]*chInfo, *interner) {
 		if r.Chance(4) {
 			nd.snap = "zz-absent"
 		}
+		if honest {
+			// honest shape: the snapshot base is a snapshot among the ancestors-or-equal of the first previous id
+			// (the creator's root), often a NEW snapshot rather than the tree root
+			var cands []string
+			seen := map[string]bool{}
+			var up func(id string)
+			up = func(id string) {
+				if seen[id] {
+					return
+				}
+				seen[id] = true
+				for _, x := range nodes {
+					if x.id == id {
+						if x.isSnap {
+							cands = append(cands, id)
+						}
+						for _, p := range x.prevs {
+							up(p)
+						}
+					}
+				}
+			}
+			if len(nd.prevs) > 0 {
+				up(nd.prevs[0])
+			}
+			nd.snap = cands[r.Intn(len(cands))]
+			if r.Chance(50) { // prefer the newest snapshot found first on the way up
+				nd.snap = cands[0]
+			}
+		}
 		nodes = append(nodes, nd)
 	}
 	info := map[string]*chInfo{}
@@ -382,8 +433,22 @@ func genDag(r *corr.Run) ([]*tnode, map[string]*chInfo, *interner) {
 }
 
 func treeLevelCase(r *corr.Run) {
-	nodes, info, in := genDag(r)
-	if r.Chance(35) {
+	mode := r.Intn(100)
+	if mode < 25 {
+		var nodes []*tnode
+		var info map[string]*chInfo
+		protocol := r.Chance(60)
+		if protocol {
+			nodes, info = genHonest(r)
+			r.Count("treelevel.closed.gen.protocol")
+		} else {
+			nodes, info, _ = genDag(r, true)
+		}
+		treeLevelClosedBatch(r, nodes, info, protocol)
+		return
+	}
+	nodes, info, in := genDag(r, false)
+	if mode < 55 {
 		treeLevelDeterminism(r, nodes, info)
 		return
 	}
@@ -468,7 +533,7 @@ func treeLevelCase(r *corr.Run) {
 			mode, added = tr.Add(chs...)
 		}()
 		if panicked != "" {
-			r.Violate("C06", "", "treelevel.panic", "Tree.Add panicked: "+panicked, trace)
+			tlViolate(r, "C06", "treelevel.panic", "Tree.Add panicked: "+panicked, trace)
 			return
 		}
 		var addedIds, it []string
@@ -484,7 +549,7 @@ func treeLevelCase(r *corr.Run) {
 		r.Count("treelevel.mode." + modeName(mode))
 		// direct oracles on the pure tree: Append ⇒ prefix; order ids sorted == iteration
 		if mode == objecttree.Append && !isPrefix(before, it) {
-			r.Violate("C06", "", "treelevel.append.prefix", fmt.Sprintf("Tree.Add reported Append but %s is not a prefix of %s", join(before), join(it)), trace)
+			tlViolate(r, "C06", "treelevel.append.prefix", fmt.Sprintf("Tree.Add reported Append but %s is not a prefix of %s", join(before), join(it)), trace)
 			return
 		}
 		// (only while the root has not moved: on non-honest DAGs - e.g. a redundant parent edge to an ancestor
@@ -493,7 +558,7 @@ func treeLevelCase(r *corr.Run) {
 		byOrder := append([]string{}, it...)
 		sort.SliceStable(byOrder, func(i, j int) bool { return tr.Get(byOrder[i]).OrderId < tr.Get(byOrder[j]).OrderId })
 		if !rootMoved && !eqStr(byOrder, it) {
-			r.Violate("C06", "", "treelevel.orderid", fmt.Sprintf("sorting by order id gives %s, iteration is %s", join(byOrder), join(it)), trace)
+			tlViolate(r, "C06", "treelevel.orderid", fmt.Sprintf("sorting by order id gives %s, iteration is %s", join(byOrder), join(it)), trace)
 			return
 		}
 		pos := map[string]int{}
@@ -503,7 +568,7 @@ func treeLevelCase(r *corr.Run) {
 		for _, id := range it[1:] {
 			for _, p := range info[id].prevs {
 				if pp, ok := pos[p]; ok && pp >= pos[id] {
-					r.Violate("C06", "", "treelevel.causal", fmt.Sprintf("%s iterated not after its parent %s in %s", id, p, join(it)), trace)
+					tlViolate(r, "C06", "treelevel.causal", fmt.Sprintf("%s iterated not after its parent %s in %s", id, p, join(it)), trace)
 					return
 				}
 			}
@@ -628,7 +693,7 @@ func treeLevelDeterminism(r *corr.Run, nodes []*tnode, info map[string]*chInfo) 
 	t2, tr2, e2 := build(v2)
 	trace := append(append([]string{}, tr1...), tr2...)
 	if e1 != "" || e2 != "" {
-		r.Violate("C06", "", "treelevel.det.append", e1+e2, trace)
+		tlViolate(r, "C06", "treelevel.det.append", e1+e2, trace)
 		return
 	}
 	iterOf := func(t *objecttree.Tree) []string {
@@ -649,7 +714,7 @@ func treeLevelDeterminism(r *corr.Run, nodes []*tnode, info map[string]*chInfo) 
 		for _, id := range x.it[1:] {
 			for _, p := range info[id].prevs {
 				if pp, ok := pos[p]; !ok || pp >= pos[id] {
-					r.Violate("C06", "", "treelevel.det.causal", fmt.Sprintf("%s presented not after its parent %s in %s", id, p, join(x.it)), trace)
+					tlViolate(r, "C06", "treelevel.det.causal", fmt.Sprintf("%s presented not after its parent %s in %s", id, p, join(x.it)), trace)
 					return
 				}
 			}
@@ -657,12 +722,12 @@ func treeLevelDeterminism(r *corr.Run, nodes []*tnode, info map[string]*chInfo) 
 		byOrder := append([]string{}, x.it...)
 		sort.SliceStable(byOrder, func(i, j int) bool { return x.t.Get(byOrder[i]).OrderId < x.t.Get(byOrder[j]).OrderId })
 		if !eqStr(byOrder, x.it) {
-			r.Violate("C06", "", "treelevel.det.orderid", fmt.Sprintf("sorting by order id gives %s, the presented sequence is %s", join(byOrder), join(x.it)), trace)
+			tlViolate(r, "C06", "treelevel.det.orderid", fmt.Sprintf("sorting by order id gives %s, the presented sequence is %s", join(byOrder), join(x.it)), trace)
 			return
 		}
 		for i := 1; i < len(x.it); i++ {
 			if x.t.Get(x.it[i-1]).OrderId == x.t.Get(x.it[i]).OrderId {
-				r.Violate("C06", "", "treelevel.det.orderid", fmt.Sprintf("%s and %s carry the same order id", x.it[i-1], x.it[i]), trace)
+				tlViolate(r, "C06", "treelevel.det.orderid", fmt.Sprintf("%s and %s carry the same order id", x.it[i-1], x.it[i]), trace)
 				return
 			}
 		}
@@ -673,9 +738,265 @@ func treeLevelDeterminism(r *corr.Run, nodes []*tnode, info map[string]*chInfo) 
 			r.Count("treelevel.det.equal-sets>=4")
 		}
 		if !eqStr(it1, it2) {
-			r.Violate("C06", "", "treelevel.det.order", fmt.Sprintf("the same change set is presented as %s after one arrival order and as %s after another", join(it1), join(it2)), trace)
+			tlViolate(r, "C06", "treelevel.det.order", fmt.Sprintf("the same change set is presented as %s after one arrival order and as %s after another", join(it1), join(it2)), trace)
 			return
 		}
 	}
 	r.Case(strings.Join(trace, ";"), len(nodes) >= 4)
+}
+
+// treeLevelClosedBatch: an honest-shaped DAG (every change has previous ids; its snapshot base is a snapshot among
+// its ancestors, often a snapshot that is itself new) delivered as ONE addition in an arbitrary order inside the
+// batch, with duplicates. The batch is closed (everything it needs is in it or already attached), so whatever the
+// order inside it every change must end up attached (model: `add_confluent`), and two different orders must
+// present the same sequence.
+func treeLevelClosedBatch(r *corr.Run, nodes []*tnode, info map[string]*chInfo, protocol bool) {
+	build := func(variant int) (*objecttree.Tree, []string, string) {
+		tr := &objecttree.Tree{}
+		var trace []string
+		rest := append([]*tnode{}, nodes[1:]...)
+		switch variant {
+		case 0:
+			sort.Slice(rest, func(i, j int) bool { return rest[i].id > rest[j].id })
+		case 1: // children before parents: reverse creation order
+			for i, j := 0, len(rest)-1; i < j; i, j = i+1, j-1 {
+				rest[i], rest[j] = rest[j], rest[i]
+			}
+		default:
+			r.Rand.Shuffle(len(rest), func(i, j int) { rest[i], rest[j] = rest[j], rest[i] })
+		}
+		for x := r.Intn(3); x > 0 && len(rest) > 0; x-- {
+			rest = append(rest, rest[r.Intn(len(rest))])
+		}
+		for bi, b := range [][]*tnode{{nodes[0]}, rest} {
+			chs := make([]*objecttree.Change, len(b))
+			ids := make([]string, len(b))
+			for i, nd := range b {
+				chs[i] = mkChange(nd)
+				ids[i] = fmt.Sprintf("%s<%s^%s", nd.id, join(nd.prevs), nd.snap)
+			}
+			var before []string
+			if tr.Root() != nil {
+				tr.IterateSkip(tr.RootId(), func(c *objecttree.Change) bool { before = append(before, c.Id); return true })
+			}
+			panicked := ""
+			var mode objecttree.Mode
+			func() {
+				defer func() {
+					if p := recover(); p != nil {
+						panicked = fmt.Sprint(p)
+					}
+				}()
+				mode, _ = tr.Add(chs...)
+			}()
+			trace = append(trace, fmt.Sprintf("variant%d add#%d %s -> %s", variant, bi, strings.Join(ids, " "), modeName(mode)))
+			if panicked != "" {
+				return tr, trace, "Tree.Add panicked: " + panicked
+			}
+			var it []string
+			tr.IterateSkip(tr.RootId(), func(c *objecttree.Change) bool { it = append(it, c.Id); return true })
+			if mode == objecttree.Append && !isPrefix(before, it) {
+				return tr, trace, fmt.Sprintf("Tree.Add reported Append but %s is not a prefix of %s", join(before), join(it))
+			}
+		}
+		return tr, trace, ""
+	}
+	v1 := r.Intn(3)
+	t1, tr1, e1 := build(v1)
+	t2, tr2, e2 := build(2)
+	trace := append(append([]string{}, tr1...), tr2...)
+	if e1 != "" || e2 != "" {
+		tlViolate(r, "C06", "treelevel.closed.append", e1+e2, trace)
+		return
+	}
+	r.Count("treelevel.closed")
+	all := make([]string, len(nodes))
+	newSnaps := 0
+	for i, nd := range nodes {
+		all[i] = nd.id
+		if i > 0 && nd.snap != nodes[0].id {
+			newSnaps++
+		}
+	}
+	if newSnaps > 0 {
+		r.Count("treelevel.closed.with-new-snapshot-base")
+	}
+	var its [][]string
+	for _, t := range []*objecttree.Tree{t1, t2} {
+		var it []string
+		t.IterateSkip(t.RootId(), func(c *objecttree.Change) bool { it = append(it, c.Id); return true })
+		its = append(its, it)
+		if !eqStr(sortedCopy(it), sortedCopy(all)) {
+			tlViolate(r, "C06", "treelevel.closed.missing", fmt.Sprintf("a closed batch was delivered in one addition, but only %s of %s is presented: the result depends on the order inside the batch", join(sortedCopy(it)), join(sortedCopy(all))), trace)
+			return
+		}
+		pos := map[string]int{}
+		for i, id := range it {
+			pos[id] = i
+		}
+		for _, id := range it[1:] {
+			for _, p := range info[id].prevs {
+				if pp, ok := pos[p]; !ok || pp >= pos[id] {
+					tlViolate(r, "C06", "treelevel.closed.causal", fmt.Sprintf("%s presented not after its parent %s in %s", id, p, join(it)), trace)
+					return
+				}
+			}
+		}
+		byOrder := append([]string{}, it...)
+		sort.SliceStable(byOrder, func(i, j int) bool { return t.Get(byOrder[i]).OrderId < t.Get(byOrder[j]).OrderId })
+		if !eqStr(byOrder, it) {
+			tlViolate(r, "C06", "treelevel.closed.orderid", fmt.Sprintf("sorting by order id gives %s, the presented sequence is %s", join(byOrder), join(it)), trace)
+			return
+		}
+	}
+	// reduce is only judged on DAGs the honest protocol can produce (previous ids = all heads of the creator's state,
+	// snapshot base = its root): on other shapes reduceTree legitimately leaves unreachable changes attached
+	if protocol {
+		if msg := reduceOracle(r, t2, its[1]); msg != "" {
+			tlViolate(r, "C06", "treelevel.closed.reduce", msg, append(trace, "reduce"))
+			return
+		}
+	}
+	if !eqStr(its[0], its[1]) {
+		tlViolate(r, "C06", "treelevel.closed.order", fmt.Sprintf("the same closed batch is presented as %s after one inner order and as %s after another", join(its[0]), join(its[1])), trace)
+		return
+	}
+	r.Case(strings.Join(trace, ";"), len(nodes) >= 4)
+}
+
+// genHonest: a DAG produced by the abstract honest protocol. Every new change is created by a "replica" whose state
+// is an arbitrary ancestor-closed set of the changes so far: its previous ids are ALL heads of that state (an
+// antichain), its snapshot base is the state's in-memory root - the newest snapshot common to the snapshot chains of
+// all heads (what reduceTree computes), or an older snapshot on that root's chain (a replica that reduced less).
+// Snapshots are frequent, so chains of snapshots and heads joining the chain at different depths are common.
+func genHonest(r *corr.Run) ([]*tnode, map[string]*chInfo) {
+	n := 3 + r.Intn(r.Pick(8, 11))
+	alph := []string{"ab", "abc", "01"}[r.Intn(3)]
+	used := map[string]bool{}
+	fresh := func() string {
+		for {
+			l := 1 + r.Intn(3)
+			b := make([]byte, l)
+			for i := range b {
+				b[i] = alph[r.Intn(len(alph))]
+			}
+			if !used[string(b)] {
+				used[string(b)] = true
+				return string(b)
+			}
+		}
+	}
+	nodes := []*tnode{{id: fresh(), isSnap: true}}
+	by := map[string]*tnode{nodes[0].id: nodes[0]}
+	chain := func(id string) []string { // id's snapshot chain, nearest first (starting at its base)
+		var res []string
+		for cur := by[id].snap; cur != ""; cur = by[cur].snap {
+			res = append(res, cur)
+		}
+		return res
+	}
+	for i := 1; i < n; i++ {
+		// the creator's state: an ancestor-closed set
+		in := map[string]bool{nodes[0].id: true}
+		var up func(id string)
+		up = func(id string) {
+			if in[id] {
+				return
+			}
+			in[id] = true
+			for _, p := range by[id].prevs {
+				up(p)
+			}
+		}
+		pct := []int{30, 60, 100}[r.Intn(3)]
+		for _, nd := range nodes {
+			if r.Chance(pct) {
+				up(nd.id)
+			}
+		}
+		hasChild := map[string]bool{}
+		for id := range in {
+			for _, p := range by[id].prevs {
+				hasChild[p] = true
+			}
+		}
+		var heads []string
+		for _, nd := range nodes {
+			if in[nd.id] && !hasChild[nd.id] {
+				heads = append(heads, nd.id)
+			}
+		}
+		// the state's root
+		var root string
+		if len(heads) == 1 && by[heads[0]].isSnap {
+			root = heads[0]
+		} else {
+			common := chain(heads[0])
+			for _, h := range heads[1:] {
+				ch := idSet(chain(h))
+				var keep []string
+				for _, x := range common {
+					if ch[x] {
+						keep = append(keep, x)
+					}
+				}
+				common = keep
+			}
+			root = common[0] // chains all end in the tree root
+		}
+		if r.Chance(25) { // a replica that has reduced less
+			if c := append([]string{root}, chain(root)...); len(c) > 1 {
+				root = c[r.Intn(len(c))]
+			}
+		}
+		nd := &tnode{id: fresh(), prevs: heads, snap: root, isSnap: r.Chance(35)}
+		nodes = append(nodes, nd)
+		by[nd.id] = nd
+	}
+	info := map[string]*chInfo{}
+	for _, nd := range nodes {
+		info[nd.id] = nd.info()
+	}
+	return nodes, info
+}
+
+// reduceOracle: reducing a completely attached honest tree must keep a VIEW: everything that stays attached is
+// presented (nothing is left attached but unreachable from the new root), every head stays in it, and the view
+// presents the previous sequence restricted to what it holds.
+func reduceOracle(r *corr.Run, t *objecttree.Tree, before []string) string {
+	panicked := ""
+	func() {
+		defer func() {
+			if p := recover(); p != nil {
+				panicked = fmt.Sprint(p)
+			}
+		}()
+		t.VerifReduce()
+	}()
+	if panicked != "" {
+		return "reduceTree panicked: " + panicked
+	}
+	var it []string
+	t.IterateSkip(t.RootId(), func(c *objecttree.Change) bool { it = append(it, c.Id); return true })
+	r.Count("treelevel.closed.reduce")
+	if len(it) < len(before) {
+		r.Count("treelevel.closed.reduce.moved")
+	}
+	if len(t.Heads()) >= 3 {
+		r.Count("treelevel.closed.reduce.heads>=3")
+	}
+	held := t.VerifAttachedIds()
+	if !eqStr(sortedCopy(it), held) {
+		return fmt.Sprintf("after reduce to %s the tree holds %s but presents %s", t.RootId(), join(held), join(sortedCopy(it)))
+	}
+	set := idSet(it)
+	for _, h := range t.Heads() {
+		if !set[h] {
+			return fmt.Sprintf("after reduce to %s head %s is not presented (%s)", t.RootId(), h, join(it))
+		}
+	}
+	if rs := restrict(before, set); !eqStr(rs, it) {
+		return fmt.Sprintf("after reduce to %s the tree presents %s, the previous sequence restricted to the view is %s", t.RootId(), join(it), join(rs))
+	}
+	return ""
 }
